@@ -382,6 +382,61 @@ def replay_witness(tag, kind):
     return hits
 
 
+FUNNEL_DOCS = [
+    # every node below a registered plugin tag, in key and in value position, lazily and eagerly evaluated
+    "pipeline:\n  - __type__: %(c)s.DummyPool\n__config_test:\n  x: !__yaml_tag_test\n    ? k1\n    : [1, {a: 2}]\n    ? !!str k2\n    : {b: [3]}\n",
+    "pipeline:\n  - __type__: %(c)s.DummyPool\n__config_test:\n  x: !__yaml_tag_test [[1], {c: 4}, !!str s]\n",
+    "pipeline:\n  - !Logger\n    ? name\n    : verif.c18\n    ? !!str message\n    : '%%(value)s'\n  - __type__: %(c)s.DummyPool\n",
+    "pipeline:\n  - !Logger {name: n, level: !!int 20}\n  - __type__: %(c)s.DummyPool\n__config_test:\n  y: !__yaml_tag_test {p: !__yaml_tag_test [q, {r: s}]}\n",
+]
+
+
+def funnel_check(cls):
+    """cobald's own constructors must route every child node through construct_object (the z3 claim
+    is about construct_object's dispatch).  Concrete: load documents with a spy subclass of the
+    captured loader class and compare the visited nodes with the composed tree."""
+    problems, docs = [], 0
+
+    class SpyLoader(cls):
+        def construct_document(self, node):
+            self._root = node
+            return super().construct_document(node)
+
+        def construct_object(self, node, deep=False):
+            self.__dict__.setdefault("_visited", set()).add(id(node))
+            return super().construct_object(node, deep=deep)
+
+    def walk(node, out):
+        out.append(node)
+        if isinstance(node, yaml.SequenceNode):
+            for c in node.value:
+                walk(c, out)
+        elif isinstance(node, yaml.MappingNode):
+            for k, v in node.value:
+                walk(k, out)
+                walk(v, out)
+
+    for text in FUNNEL_DOCS:
+        docs += 1
+        text = text % {"c": CANARY}
+        loader = SpyLoader(text)
+        try:
+            loader.get_single_data()
+        except Exception as e:
+            problems.append(("funnel document failed to load: %s: %s" % (type(e).__name__, e), text))
+            continue
+        finally:
+            loader.dispose()
+        nodes = []
+        walk(loader._root, nodes)
+        missed = [n for n in nodes if id(n) not in loader._visited]
+        if missed:
+            problems.append(("node %s %r (line %d) never reached construct_object: its tag is ignored"
+                             % (missed[0].tag, getattr(missed[0], "value", None) if isinstance(missed[0], yaml.ScalarNode) else "...",
+                                missed[0].start_mark.line + 1), text))
+    return problems, docs
+
+
 def run(tier, seed):
     t0 = time.time()
     stats = {"queries": 0, "unsat": 0, "unknown": [], "solver_s": 0.0, "entries": 0, "unsafe_entries": 0,
@@ -423,6 +478,20 @@ def run(tier, seed):
                 violations.append({"harness": "dispatch", "label": desc, "status": "unconfirmed (documents were rejected)",
                                    "inputs": {"tag": wit, "kind": kd}, "params": {"loader": cls.__name__},
                                    "property": PROPERTY, "module": MOD})
+    funnel_docs = 0
+    for cls in dict.fromkeys(classes):
+        problems, funnel_docs = funnel_check(cls)
+        for msg, text in problems:
+            # confirm through the real load(): a python/* tag at the unvisited position must be rejected
+            key_doc = ("pipeline:\n  - __type__: %s.DummyPool\n__config_test:\n  x: !__yaml_tag_test\n"
+                       "    ? !!python/name:%s.fire k\n    : 1\n" % (CANARY, CANARY))
+            err, _ = _load_doc(key_doc)
+            violations.append({"harness": "funnel", "label": "every node is routed through construct_object",
+                               "status": "confirmed" if err is None else "unconfirmed (document rejected)",
+                               "kind": "custom", "module": MOD, "property": PROPERTY, "params": {"loader": cls.__name__},
+                               "inputs": {"problem": msg, "document": key_doc if err is None else text,
+                                          "tag": "tag:yaml.org,2002:python/name:%s.fire" % CANARY, "position": "mapping key"}})
+            break
     for u in stats["unknown"]:
         engine_errors.append("solver returned unknown for: %s" % u)
     # concrete end-to-end spot checks of the rejection path (trusted-base sanity, not the verdict)
@@ -446,6 +515,7 @@ def run(tier, seed):
         "loader_classes": per_class,
         "python_tag_patterns": dict(zip(("keys", "prefixes"), map(len, python_tag_patterns()))),
         "end_to_end_spot_checks": spot,
+        "funnel_documents": funnel_docs,
         "functions_encoded": core.function_hashes(FUNCTIONS),
         "bounds": {"tag": "unbounded z3 String", "kind": list(KINDS)},
         "stubs": ["spy on yaml.reader.Reader.__init__ while the real load() runs (records loader classes)"],
@@ -463,6 +533,10 @@ def run(tier, seed):
 
 
 def replay(v):
+    if v.get("harness") == "funnel":
+        err, _ = _load_doc(v["inputs"]["document"])
+        print("REPRODUCED (document accepted)" if err is None else "not reproduced on this tree: %s" % type(err).__name__)
+        return 1 if err is None else 0
     hits = replay_witness(v["inputs"]["tag"], 0) + replay_witness(v["inputs"]["tag"], 2)
     for h in hits[:3]:
         print(json.dumps(h)[:400])
